@@ -16,7 +16,7 @@ Judge(e) ==
      ELSE IF Sq(e.ps) # Sq(e.s) THEN "escape.parsed_single_quoted_attribute"
      ELSE "ok"
   ELSE IF e.k = "dur" THEN
-     LET j == JudgeDuration(e.sec, e.ms, e.p) IN
+     LET j == IF "us" \in DOMAIN e THEN JudgeDurationUs(e.sec, e.us, e.p) ELSE JudgeDuration(e.sec, e.ms, e.p) IN
      IF j # "ok" THEN j ELSE IF ~e.same THEN "hms.milliseconds_equal_seconds" ELSE "ok"
   ELSE "badevent"
 TInit == i = 0 /\ verdict = "init"
